@@ -98,9 +98,10 @@ class Adm(object):
     path = os.path.join(self.dir, 'list%d.conf' % self.nfile)
 
     def write(ls, mtime):
+      text = '\n'.join(render(p) for p in ls)
       with open(path, 'w', encoding='utf-8') as fh:
-        for p in ls:
-          fh.write(render(p) + '\n')
+        # every third file has no newline after its last line, some use CRLF line ends
+        fh.write(text if self.nfile % 3 == 0 else (text.replace('\n', '\r\n') + '\r\n' if self.nfile % 7 == 1 else text + '\n'))
       os.utime(path, (mtime, mtime))
     clock = task.Clock()
     if obj.read_task.running:
@@ -122,13 +123,23 @@ class Adm(object):
       write(lines, 2000.0)
       clock.advance(10)
 
-  def send(self, proto, name, ts, value, res):
+  def send(self, proto, name, ts, value, res, prelude=()):
     wm = self.wm
     wm.settings['MIN_TIMESTAMP_RESOLUTION'] = res
     st = wm.instrumentation.stats
+    run = wiresys.Run(wm, proto)
+    # earlier datapoints on the same connection (refused, NaN-valued, admitted ones): each datapoint is judged on its own
+    for pn, pts, pv in prelude:
+      try:
+        if proto == 'pickle':
+          run.feed(wiresys.pickle_frame([(pn, pts, pv)], 2))
+        else:
+          run.feed(('%s %s %s\n' % (pn, repr(pv), repr(pts))).encode('utf-8'))
+      except Exception:
+        pass
+    del run.seen[:]
     st.pop('blacklistMatches', None)
     st.pop('whitelistRejects', None)
-    run = wiresys.Run(wm, proto)
     try:
       if proto == 'pickle':
         esc = run.feed(wiresys.pickle_frame([(name, ts, value)], 2))
@@ -156,9 +167,16 @@ def cases(ctx, adm, rng, n):
       name = gen_name(rng, bl + wl)
       value = rng.choice([1.5, -2.0, 0.0, float('inf'), float('-inf'), float('nan'), float('nan'), 42])
       ts = rng.choice([-1.0, -1, 0.0, 7.0, 59.5, 60.0, 61.5, 119.5, 1234.5, -1.5, -5.0, -0.5])
+      tsbad = 0
+      if rng.random() < 0.06:
+        ts, tsbad = rng.choice([float('inf'), float('-inf'), float('nan')]), 1
       res = rng.choice([0, 0, 1, 10, 60])
       proto = rng.choice(['line', 'udp', 'pickle'])
-      esc, seen, blc, wlc = adm.send(proto, name, ts, value, res)
+      prelude = []
+      if rng.random() < 0.4:
+        for _ in range(rng.randint(1, 2)):
+          prelude.append((rng.choice([name, name, gen_name(rng, bl + wl)]), rng.choice([7.0, -1, 60.0]), rng.choice([float('nan'), 1.0, 0.0])))
+      esc, seen, blc, wlc = adm.send(proto, name, ts, value, res, prelude=prelude)
       obs = dict(admitted=1 if seen else 0, ts2=0, namesame=1, valuesame=1, blcount=blc, wlcount=wlc, escaped=esc, n=len(seen))
       if seen:
         m, t, v = seen[0]
@@ -167,10 +185,10 @@ def cases(ctx, adm, rng, n):
         obs['valuesame'] = 1 if struct.pack('>d', float(v)) == struct.pack('>d', float(value)) else 0
         if len(seen) > 1:
           obs['namesame'] = 0
-      out.append(dict(bl=bl, wl=wl, name=enc(name), nan=1 if value != value else 0, ts2=half(ts), res=res,
+      out.append(dict(bl=bl, wl=wl, name=enc(name), nan=1 if value != value else 0, ts2=0 if tsbad else half(ts), tsbad=tsbad, res=res,
                       now2=half(adm.ft.now), obs=obs, proto=proto,
                       text=dict(blacklist=[render(p) for p in bl], whitelist=[render(p) for p in wl], name=name,
-                                value=repr(value), ts=ts)))
+                                value=repr(value), ts=repr(ts), earlier_on_the_connection=[(a, repr(c), b) for a, b, c in prelude])))
   return out
 
 
